@@ -105,10 +105,17 @@ func closedParen(s string) bool {
 
 func (k *kernel) define(ind int, id *ast.Ident, s string, kind vkind) *variable {
 	v := k.declare(id, kind)
-	if !k.inLoop && k.mode == mKernel && (kind == vFloat || kind == vIntVar || kind == vSlice) {
+	if !k.inLoop && k.mode == mKernel && (kind == vFloat || kind == vIntVar || kind == vSlice || kind == vBool) {
 		k.preLocals = append(k.preLocals, v)
 	}
+	if kind == vBool && (s == "true" || s == "false") && k.singleAssignment(id.Name) {
+		v.boolLit = s // a Bool that is a literal on every path (a nil test of a series, …): read as that literal
+	}
 	k.line(ind, "let %s : %s := %s", v.lean, v.typ(), s)
+	if rhs := k.defRhs; rhs != nil {
+		k.defRhs = nil
+		k.trySink(v, rhs, fmt.Sprintf("let %s : %s := %s", v.lean, v.typ(), s))
+	}
 	return v
 }
 
@@ -117,6 +124,13 @@ func (k *kernel) target(id *ast.Ident, n ast.Node) *variable {
 	v := k.lookup(id.Name)
 	if v == nil || !valueKind(v.kind) {
 		k.fail(n, "assignment to %s, which is not a float64 or bool variable", id.Name)
+	}
+	return k.targetVar(v, n)
+}
+
+func (k *kernel) targetVar(v *variable, n ast.Node) *variable {
+	if v.parent != nil && (v.parent.capturedAt || (k.mode == mKernel && !k.inFinal && k.inLoop && !v.inLoop)) {
+		k.fail(n, "assignment to a field of %s, which is declared before the loop or captured by a function literal", v.parent.name)
 	}
 	if v.capturedAt {
 		k.fail(n, "assignment to %s after a function literal has captured it", v.name)
@@ -139,8 +153,25 @@ func (k *kernel) target(id *ast.Ident, n ast.Node) *variable {
 
 func (k *kernel) assign(ind int, lhs ast.Expr, tok token.Token, rhs ast.Expr, n ast.Node) {
 	id, ok := lhs.(*ast.Ident)
-	if !ok {
+	fv := k.fieldVar(lhs) // x.f = e
+	if !ok && (fv == nil || tok == token.DEFINE) {
 		k.fail(n, "assignment to %T", lhs)
+	}
+	if ok && tok == token.DEFINE { // x := T{…} / x := y of a struct
+		if _, st := k.structLit(rhs); st != nil {
+			k.defineStruct(ind, id, st, k.structValues(rhs, st), rhs)
+			return
+		}
+		if sv := k.structVar(rhs); sv != nil {
+			k.defineStruct(ind, id, sv.st, k.structValues(rhs, sv.st), rhs)
+			return
+		}
+	}
+	if ok && tok == token.ASSIGN {
+		if sv := k.lookup(id.Name); sv != nil && sv.kind == vStruct {
+			k.assignStruct(ind, sv, rhs, n)
+			return
+		}
 	}
 	if tok == token.DEFINE {
 		if lit, ok := rhs.(*ast.FuncLit); ok {
@@ -149,15 +180,22 @@ func (k *kernel) assign(ind int, lhs ast.Expr, tok token.Token, rhs ast.Expr, n 
 		}
 		if c, ok := k.constEnv().eval(rhs); ok && !c.typed { // `x := 0`: an untyped integer constant declares an int
 			if lit, isInt := intLit(c.v); isInt {
+				k.defRhs = rhs
 				k.define(ind, id, lit, vIntVar)
 				return
 			}
 		}
 		s, kind := k.rhs(rhs)
+		k.defRhs = rhs
 		k.define(ind, id, s, kind)
 		return
 	}
-	v := k.target(id, n)
+	var v *variable
+	if fv != nil {
+		v = k.targetVar(fv, n)
+	} else {
+		v = k.target(id, n)
+	}
 	var s string
 	if tok == token.ASSIGN && v.kind == vIntVar {
 		s, _ = k.intExpr(rhs)
@@ -173,14 +211,14 @@ func (k *kernel) assign(ind int, lhs ast.Expr, tok token.Token, rhs ast.Expr, n 
 		if op == token.ILLEGAL {
 			k.fail(n, "assignment operator %s", tok)
 		}
-		s, _ = k.intExpr(&ast.BinaryExpr{X: id, OpPos: n.Pos(), Op: op, Y: rhs})
+		s, _ = k.intExpr(&ast.BinaryExpr{X: lhs, OpPos: n.Pos(), Op: op, Y: rhs})
 	} else {
 		op := map[token.Token]token.Token{token.ADD_ASSIGN: token.ADD, token.SUB_ASSIGN: token.SUB, token.MUL_ASSIGN: token.MUL,
 			token.QUO_ASSIGN: token.QUO}[tok]
 		if op == token.ILLEGAL {
 			k.fail(n, "assignment operator %s", tok)
 		}
-		s, _ = k.num(&ast.BinaryExpr{X: id, OpPos: n.Pos(), Op: op, Y: rhs})
+		s, _ = k.num(&ast.BinaryExpr{X: lhs, OpPos: n.Pos(), Op: op, Y: rhs})
 	}
 	k.assigned(v)
 	k.line(ind, "let %s : %s := %s", v.lean, v.typ(), s)
@@ -193,20 +231,80 @@ func (k *kernel) multiAssign(ind int, s *ast.AssignStmt) {
 		k.fail(s, "multiple assignment")
 	}
 	text, outs, ok := k.callTyped(call)
-	nout := len(outs)
-	if !ok || nout != len(s.Lhs) {
+	if !ok || len(k.callShapes(call, outs)) != len(s.Lhs) {
 		k.fail(s, "multiple assignment other than from a helper function with as many results")
 	}
 	k.ncall++
 	tmp := k.fresh(fmt.Sprintf("call%d", k.ncall))
 	k.line(ind, "let %s : %s := %s", tmp, tupleTypeOf(outs), text)
-	k.bindResults(ind, s, tmp, outs)
+	k.bindResultsOf(ind, s, tmp, outs, k.callShapes(call, outs))
 }
 
 // `a, b := tmp` / `a, b = tmp` for the results of a call held in the tuple `tmp`
 func (k *kernel) bindResults(ind int, s *ast.AssignStmt, tmp string, outs []string) {
+	k.bindResultsOf(ind, s, tmp, outs, outs)
+}
+
+// the Go results of a call (a struct result: its marker), given the flattened Lean types of the results
+func (k *kernel) callShapes(call *ast.CallExpr, outs []string) []string {
+	if k.closureOf(call.Fun) == nil {
+		if r := k.resolveFunc(call.Fun); r != nil {
+			if g, ok := k.goResultTypes(r); ok {
+				return g
+			}
+		}
+	}
+	return outs
+}
+
+// shapes: one entry per left-hand side (a struct marker takes as many components of `tmp` as the struct has fields)
+func (k *kernel) bindResultsOf(ind int, s *ast.AssignStmt, tmp string, outs, shapes []string) {
 	nout := len(outs)
-	for i, l := range s.Lhs {
+	if len(shapes) != len(s.Lhs) {
+		k.fail(s, "the %d results of the call are not all assigned", len(shapes))
+	}
+	at := 0
+	for li, l := range s.Lhs {
+		if st := k.w.structByMarker(shapes[li]); st != nil {
+			first := at
+			at += len(st.fields)
+			id, ok := l.(*ast.Ident)
+			if !ok {
+				k.fail(s, "assignment to %T", l)
+			}
+			if id.Name == "_" {
+				continue
+			}
+			if _, here := k.sc.vars[id.Name]; s.Tok == token.DEFINE && !here {
+				var vals []string
+				for j := range st.fields {
+					vals = append(vals, tmp+proj(first+j, nout))
+				}
+				k.defineStruct(ind, id, st, vals, nil)
+				continue
+			}
+			v := k.lookup(id.Name)
+			if v == nil || v.kind != vStruct || v.st != st {
+				k.fail(s, "assignment of a %s to %s", st.name, id.Name)
+			}
+			for j, c := range v.fields {
+				k.targetVar(c, s)
+				k.assigned(c)
+				k.line(ind, "let %s : %s := %s", c.lean, c.typ(), tmp+proj(first+j, nout))
+			}
+			continue
+		}
+		i := at
+		at++
+		if fv := k.fieldVar(l); fv != nil && s.Tok == token.ASSIGN {
+			v := k.targetVar(fv, s)
+			if v.typ() != outs[i] {
+				k.fail(s, "assignment of a %s to %s", outs[i], v.name)
+			}
+			k.assigned(v)
+			k.line(ind, "let %s : %s := %s", v.lean, v.typ(), tmp+proj(i, nout))
+			continue
+		}
 		id, ok := l.(*ast.Ident)
 		if !ok {
 			k.fail(s, "assignment to %T", l)
@@ -238,6 +336,19 @@ func (k *kernel) localDecl(ind int, d *ast.DeclStmt) {
 		vs := s.(*ast.ValueSpec)
 		if gd.Tok == token.VAR {
 			kind := vFloat
+			if st, ptr := k.w.structOf(k.p, vs.Type); vs.Type != nil && st != nil && !ptr && k.lookupType(vs.Type) {
+				if len(vs.Values) != 0 && len(vs.Values) != len(vs.Names) {
+					k.fail(vs, "var declaration without a value per name")
+				}
+				for i, n := range vs.Names {
+					if len(vs.Values) == 0 {
+						k.defineStruct(ind, n, st, nil, nil)
+					} else {
+						k.defineStruct(ind, n, st, k.structValues(vs.Values[i], st), vs.Values[i])
+					}
+				}
+				continue
+			}
 			switch {
 			case vs.Type == nil:
 			case isIdent(vs.Type, "float64"):
@@ -272,6 +383,7 @@ func (k *kernel) localDecl(ind int, d *ast.DeclStmt) {
 				if vs.Type != nil && vk != kind {
 					k.fail(vs, "var declaration whose value is not of the declared type")
 				}
+				k.defRhs = vs.Values[i]
 				k.define(ind, n, val, vk)
 			}
 			continue
@@ -334,7 +446,15 @@ func (k *kernel) stmts(list []ast.Stmt, ind int, rest func(ind int)) {
 			if len(s.Lhs) != 1 || len(s.Rhs) != 1 {
 				k.fail(s, "multiple assignment")
 			}
+			if call, ok := s.Rhs[0].(*ast.CallExpr); ok && k.structResult(call) { // x := f(…) / x = f(…) with one result of struct type
+				k.multiAssign(ind, s)
+				continue
+			}
 			if id, ok := s.Lhs[0].(*ast.Ident); ok && s.Tok == token.DEFINE && k.indexVector(ind, id, s.Rhs[0]) {
+				continue
+			}
+			if id, ok := s.Lhs[0].(*ast.Ident); ok && id.Name == "_" && s.Tok == token.ASSIGN { // `_ = e`: evaluated (it must be in the subset), not used
+				k.expr(s.Rhs[0])
 				continue
 			}
 			if ix, ok := s.Lhs[0].(*ast.IndexExpr); ok && k.indexAssign(ind, s, ix) {
@@ -387,6 +507,28 @@ func (k *kernel) stmts(list []ast.Stmt, ind int, rest func(ind int)) {
 				rel, line := k.relPos(s)
 				k.ignored = append(k.ignored, fmt.Sprintf("%s:%d", rel, line))
 				continue // writes to standard output only
+			}
+			if call != nil {
+				if r := k.resolveFunc(call.Fun); r != nil && printOnly(k.w, r, 0) { // a procedure that only prints
+					for _, a := range call.Args { // evaluating the arguments must not be able to panic: variables, literals, idx[0]
+						switch a := unparen(a).(type) {
+						case *ast.Ident, *ast.BasicLit:
+						case *ast.IndexExpr:
+							x, _ := a.X.(*ast.Ident)
+							z, _ := a.Index.(*ast.BasicLit)
+							if x == nil || z == nil || z.Value != "0" || k.lookup(x.Name) == nil || k.lookup(x.Name).kind != vIdx {
+								k.fail(a, "argument of a printing procedure that is not a variable, a literal or idx[0]")
+							}
+						default:
+							if k.fieldVar(a) == nil {
+								k.fail(a, "argument of a printing procedure that is not a variable, a literal or idx[0]")
+							}
+						}
+					}
+					rel, line := k.relPos(s)
+					k.ignored = append(k.ignored, fmt.Sprintf("%s:%d", rel, line))
+					continue
+				}
 			}
 			if k.mode != mKernel || x == nil || (sel.Sel.Name != "Set" && sel.Sel.Name != "Set1") || len(call.Args) != 2 {
 				k.fail(s, "expression statement other than out.Set(idx, e)")
@@ -591,7 +733,7 @@ func (k *kernel) boundedFor(s *ast.ForStmt, ind int) {
 		k.assigned(v)
 	}
 	// in declaration order, so that reordering independent assignments keeps the tuple
-	sort.SliceStable(f.order, func(i, j int) bool { return f.order[i].declPos < f.order[j].declPos })
+	sort.SliceStable(f.order, func(i, j int) bool { return declLess(f.order[i], f.order[j]) })
 	var names, types []string
 	for _, v := range f.order {
 		names = append(names, v.lean)
@@ -872,13 +1014,13 @@ func (k *kernel) leafReturn(ind int, r *ast.ReturnStmt) {
 		if len(k.results) != k.nres || k.nres == 0 {
 			k.fail(r, "return without values")
 		}
-		k.line(ind, "%s", k.wrap(tupleOf(k.results)))
+		k.line(ind, "%s", k.wrap(tupleOf(flatVars(k.results))))
 		return
 	}
 	if len(r.Results) == 1 {
 		if call, ok := r.Results[0].(*ast.CallExpr); ok && k.callMayPanic(call) { // return f(…) of a function that may panic
 			text, outs := k.partialCallText(call)
-			if tupleTypeOf(outs) != tupleTypeOf(k.resTypes) || !k.partial {
+			if tupleTypeOf(outs) != tupleTypeOf(k.w.flatTypes(k.resTypes)) || !k.partial {
 				k.fail(r, "return of a call whose results are not those of the function")
 			}
 			k.line(ind, "%s", text)
@@ -888,9 +1030,9 @@ func (k *kernel) leafReturn(ind int, r *ast.ReturnStmt) {
 			k.line(ind, "%s", k.tableRead(ix)())
 			return
 		}
-		if call, ok := r.Results[0].(*ast.CallExpr); ok && k.nres > 1 { // return f(…) with several results
+		if call, ok := r.Results[0].(*ast.CallExpr); ok && len(k.w.flatTypes(k.resTypes)) > 1 { // return f(…) with several results
 			text, outs, ok := k.callTyped(call)
-			if !ok || tupleTypeOf(outs) != tupleTypeOf(k.resTypes) {
+			if !ok || tupleTypeOf(outs) != tupleTypeOf(k.w.flatTypes(k.resTypes)) {
 				k.fail(r, "return of a call whose results are not those of the function")
 			}
 			k.line(ind, "%s", k.wrap(paren(text, pApp, pAtom)))
@@ -902,6 +1044,10 @@ func (k *kernel) leafReturn(ind int, r *ast.ReturnStmt) {
 	}
 	var vals []string
 	for i, e := range r.Results {
+		if st := k.w.structByMarker(k.resTypes[i]); st != nil {
+			vals = append(vals, k.structValues(e, st)...)
+			continue
+		}
 		vals = append(vals, k.valueOf(e, k.resTypes[i]))
 	}
 	k.line(ind, "%s", k.wrap(tupleOfNames(vals)))
@@ -939,47 +1085,61 @@ func (k *kernel) translateHelper(h *helperDef) string {
 	k.partial = k.nodePartial(fn.Body)
 	h.partial = k.partial
 	var params []*variable
-	pi := 0
-	for _, fld := range fn.Type.Params.List {
-		if len(fld.Names) == 0 {
-			k.fail(fld, "unnamed parameter")
+	pnames, _ := paramFields(fn)
+	for pi, n := range pnames {
+		if n == nil {
+			k.fail(fn, "unnamed parameter")
 		}
-		for _, n := range fld.Names {
-			kind := kindOfType(h.ins[pi])
-			pi++
+		kind := kindOfType(h.ins[pi])
+		if st := k.w.structByMarker(h.ins[pi]); st != nil {
 			if n.Name == "_" {
-				params = append(params, &variable{kind: kind, name: "_", lean: k.fresh("unused")})
-				continue
+				k.fail(fn, "unnamed parameter of struct type")
 			}
-			v := k.declare(n, kind)
+			v := k.declareStruct(n, st)
 			v.param = true
+			for _, c := range v.fields {
+				c.param = true
+			}
 			params = append(params, v)
+			continue
 		}
+		if n.Name == "_" {
+			params = append(params, &variable{kind: kind, name: "_", lean: k.fresh("unused")})
+			continue
+		}
+		v := k.declare(n, kind)
+		v.param = true
+		if h.ins[pi] == "σ" {
+			v.sigma = true
+			k.tables = append(k.tables, v)
+		}
+		params = append(params, v)
 	}
 	var body strings.Builder
 	k.out = &body
-	ri := 0
-	for _, fld := range fn.Type.Results.List {
-		if len(fld.Names) == 0 {
-			k.nres++
-			k.resTypes = append(k.resTypes, h.outs[ri])
-			ri++
+	gouts, _ := k.goResultTypes(&funcRef{k.p, k.file, fn})
+	rnames, _ := fields(fn.Type.Results)
+	for ri, n := range rnames {
+		k.nres++
+		k.resTypes = append(k.resTypes, gouts[ri])
+		if n == nil {
+			continue
 		}
-		for _, n := range fld.Names {
-			k.nres++
-			k.resTypes = append(k.resTypes, h.outs[ri])
-			v := k.declare(n, kindOfType(h.outs[ri]))
+		if st := k.w.structByMarker(gouts[ri]); st != nil {
+			v := k.defineStruct(1, n, st, nil, nil)
 			k.results = append(k.results, v)
-			k.line(1, "let %s : %s := %s", v.lean, h.outs[ri], zeroOf(h.outs[ri]))
-			ri++
+			continue
 		}
+		v := k.declare(n, kindOfType(gouts[ri]))
+		k.results = append(k.results, v)
+		k.line(1, "let %s : %s := %s", v.lean, gouts[ri], zeroOf(gouts[ri]))
 	}
 	k.stmts(fn.Body.List, 1, func(ind int) {
 		if len(k.results) != k.nres {
 			k.fail(fn, "missing return")
 		}
 		k.countLeaf()
-		k.line(ind, "%s", k.wrap(tupleOf(k.results)))
+		k.line(ind, "%s", k.wrap(tupleOf(flatVars(k.results))))
 	})
 	// an int parameter the body does not use is not a parameter of the definition (the time-step counter of a kernel)
 	var kept []*variable
@@ -991,6 +1151,7 @@ func (k *kernel) translateHelper(h *helperDef) string {
 		}
 		kept = append(kept, v)
 	}
+	kept = flatVars(kept)
 	h.absFns = k.absCalls
 	var b strings.Builder
 	fmt.Fprintf(&b, "/-- %s:%d  func %s", h.rel, h.line, fn.Name.Name)
@@ -1002,13 +1163,28 @@ func (k *kernel) translateHelper(h *helperDef) string {
 	}
 	b.WriteString(" -/\n")
 	abs := ""
+	needSigma := false
 	for _, a := range h.absFns {
-		abs += fmt.Sprintf(" (%s : %s)", a.lean, a.typ)
+		t := a.typ
+		if t == "" { // results (float64, error), takes whole series of the abstract type σ
+			needSigma = true
+			for _, c := range a.kinds {
+				t += map[byte]string{'f': "α → ", 's': "σ → "}[c]
+			}
+			t += "Option α"
+		}
+		abs += fmt.Sprintf(" (%s : %s)", a.lean, t)
+	}
+	for _, t := range h.ins {
+		needSigma = needSigma || t == "σ"
+	}
+	if needSigma {
+		abs = " {σ : Type}" + abs
 	}
 	ret := tupleTypeOf(h.outs)
 	if k.partial {
 		ret = "Option " + paren(ret, map[bool]int{true: pAtom, false: 0}[len(h.outs) == 1], pAtom)
 	}
-	fmt.Fprintf(&b, "def %s {α : Type} [Num α]%s%s : %s :=\n%s", h.lean, abs, binderVs(kept), ret, body.String())
+	fmt.Fprintf(&b, "@[gen_unfold] def %s {α : Type} [Num α]%s%s : %s :=\n%s", h.lean, abs, binderVs(kept), ret, body.String())
 	return b.String()
 }
